@@ -10,6 +10,7 @@ import (
 
 	"verif/conv"
 	"verif/gen"
+	"verif/harness"
 	m "verif/refmodel"
 )
 
@@ -282,4 +283,21 @@ func decodeDatagram(b []byte) ([]rtcp.Packet, error) {
 		return nil, fmt.Errorf("rtcp.Unmarshal modified its input buffer")
 	}
 	return ps, nil
+}
+
+// safeUnmarshal / safeMarshal are used for the bookkeeping calls made outside an oracle
+// (classification of generated cases): a panic there is turned into an error so that the
+// oracle that follows reports it with a replayable case.
+func safeUnmarshal(b []byte) (ps []rtcp.Packet, err error) {
+	if perr := harness.Guard(func() error { ps, err = rtcp.Unmarshal(append([]byte(nil), b...)); return nil }); perr != nil {
+		return nil, perr
+	}
+	return ps, err
+}
+
+func safeMarshal(p rtcp.Packet) (b []byte, err error) {
+	if perr := harness.Guard(func() error { b, err = p.Marshal(); return nil }); perr != nil {
+		return nil, perr
+	}
+	return b, err
 }
